@@ -275,6 +275,11 @@ class C10(Scenario):
         if not racing and k > 0:
             fault = {"poll": 1 + (group % len(rounds)), "call": k - 1, "errno": ["ENOENT", "ENOTDIR", "EACCES"][(group // 3 + k) % 3]}
         sched = draw_sched(cfg, line=racing, pct_k=800, step_cap=200_000, horizon=3600)
+        frng = random.Random(f"{seed}:clock")
+        if frng.random() < 0.15:
+            # wall-clock steps between and during polls: the poll cadence is a matter of elapsed time
+            span = (len(rounds) + 1) * TICKS
+            sched["clock_jumps"] = [[frng.randrange(0, span + 1), frng.choice([1, -1]) * frng.choice([TICKS // 2, TICKS, 3 * TICKS])] for _ in range(frng.choice([1, 1, 2]))]
         return {"pre": pre, "between": between, "rounds": rounds, "recursive": recursive, "racing": racing, "fault": fault, "interval": 1.0, "sched": sched}
 
     def shrink(self, case):
